@@ -40,13 +40,52 @@ RENDER_OPTS = {
 # ---------------------------------------------------------------------------------------
 # rendering
 # ---------------------------------------------------------------------------------------
-def autogen_context(render_dialect, render_as_batch):
+def mirror_hook(kinds):
+    """a `render_item` hook that, for the item kinds in `kinds`, returns what alembic itself would
+    render (by calling the default renderer with the hook switched off) and False otherwise: the
+    `if rendered is not False: return rendered` exits of every renderer are taken, the result
+    is judged by the exec-vs-invoke oracle like any other rendering"""
+
+    def hook(type_, obj, actx):
+        if type_ not in kinds:
+            return False
+        saved = actx.opts.get("render_item")
+        actx.opts["render_item"] = None
+        try:
+            if type_ == "type":
+                return _render._repr_type(obj, actx)
+            if type_ == "server_default":
+                return _render._render_server_default(obj, actx)
+            if type_ == "column":
+                return _render._render_column(obj, actx)
+            if type_ in ("primary_key", "foreign_key", "unique", "check", "exclude"):
+                return _render._render_constraint(obj, actx, obj.table.metadata)
+            return False
+        finally:
+            actx.opts["render_item"] = saved
+
+    return hook
+
+
+MIRROR_KINDS = {
+    "false": (),
+    "mirror-types": ("type", "server_default"),
+    "mirror-column": ("column",),
+    "mirror-constraints": ("primary_key", "foreign_key", "unique", "check", "exclude"),
+}
+
+
+def autogen_context(render_dialect, render_as_batch, render_item=None, user_module_prefix=None):
     if render_dialect in (None, "default"):
         mc = MigrationContext.configure(dialect=DefaultDialect())
     else:
         mc = MigrationContext.configure(dialect_name=render_dialect)
     opts = dict(RENDER_OPTS)
     opts["render_as_batch"] = bool(render_as_batch)
+    if render_item is not None:
+        opts["render_item"] = mirror_hook(MIRROR_KINDS[render_item])
+    if user_module_prefix is not None:
+        opts["user_module_prefix"] = user_module_prefix
     return AutogenContext(mc, opts=opts)
 
 
@@ -105,15 +144,19 @@ def render_body(case, render_dialect=None):
 # ---------------------------------------------------------------------------------------
 # the two ways of producing DDL
 # ---------------------------------------------------------------------------------------
-def _offline(dialect):
+def _offline(dialect, target_metadata=None):
     buf = io.StringIO()
-    mc = MigrationContext.configure(dialect_name=dialect, opts={"as_sql": True, "output_buffer": buf})
+    opts = {"as_sql": True, "output_buffer": buf}
+    if target_metadata is not None:
+        # what env.py normally configures: schemaobj.metadata() then copies its naming_convention
+        opts["target_metadata"] = target_metadata
+    mc = MigrationContext.configure(dialect_name=dialect, opts=opts)
     return buf, mc, Operations(mc)
 
 
-def sql_of_invoke(op_obj, dialect, as_batch=False):
+def sql_of_invoke(op_obj, dialect, as_batch=False, target_metadata=None):
     """-> (sql_text, exception or None)"""
-    buf, mc, o = _offline(dialect)
+    buf, mc, o = _offline(dialect, target_metadata)
     try:
         with warnings.catch_warnings():
             warnings.simplefilter("ignore")
@@ -133,8 +176,13 @@ def sql_of_invoke(op_obj, dialect, as_batch=False):
     return buf.getvalue(), None
 
 
+import harness as _harness_pkg  # noqa: E402  (user defined types render as harness.render_usertypes.X)
+from . import render_usertypes as _usertypes  # noqa: E402,F401
+
 _EXEC_MODULES = {
     "sa": sa,
+    "harness": _harness_pkg,
+    "ut": _usertypes,
     "mysql": _d_mysql,
     "postgresql": _d_postgresql,
     "mssql": _d_mssql,
@@ -143,22 +191,28 @@ _EXEC_MODULES = {
 }
 
 
-def sql_of_exec(text, dialect):
-    """-> (sql_text, error_kind in (None, 'syntax', 'exec'), exception or None)"""
+def sql_of_exec(text, dialect, target_metadata=None, call=None, user_module_prefix=None):
+    """-> (sql_text, error_kind in (None, 'syntax', 'exec'), exception or None);
+    `call`: name of a function defined by the text that is called afterwards (def upgrade())"""
     try:
         with warnings.catch_warnings():
             warnings.simplefilter("ignore")  # invalid escape sequences etc. are judged by the SQL
             code = compile(text, "<rendered>", "exec")
     except (SyntaxError, ValueError) as e:
         return "", "syntax", e
-    buf, mc, o = _offline(dialect)
+    buf, mc, o = _offline(dialect, target_metadata)
     g = dict(_EXEC_MODULES)
+    # the migration file imports user types the way the configuration says: under the configured
+    # user_module_prefix ("ut."), or else by their module path (harness.render_usertypes)
+    g.pop("harness" if user_module_prefix else "ut")
     g["op"] = o
     g["__builtins__"] = __builtins__
     try:
         with warnings.catch_warnings():
             warnings.simplefilter("ignore")
             exec(code, g)
+            if call:
+                g[call]()
     except Exception as e:  # noqa
         return buf.getvalue(), "exec", e
     return buf.getvalue(), None, None
@@ -308,6 +362,10 @@ def oracle(case, dialects=DIALECTS, render_dialect=None):
         render_dialect = case.spec["opts"].get("render_dialect", "default")
     results = []
     rendered_cache = {}
+    sopts = case.spec.get("opts", {})
+    ri = sopts.get("render_item")
+    ump = sopts.get("user_module_prefix")
+    tm = case.metadata if sopts.get("target_metadata") else None
     for d in dialects:
         if allowed and d not in allowed:
             continue
@@ -315,7 +373,7 @@ def oracle(case, dialects=DIALECTS, render_dialect=None):
         for i, o in enumerate(case.ops):
             key = (rd, i)
             if key not in rendered_cache:
-                rendered_cache[key] = render_one(autogen_context(rd, as_batch), o)
+                rendered_cache[key] = render_one(autogen_context(rd, as_batch, ri, ump), o)
             r = rendered_cache[key]
             res = {
                 "index": i,
@@ -331,7 +389,7 @@ def oracle(case, dialects=DIALECTS, render_dialect=None):
                 "reordered": False,
             }
             results.append(res)
-            sql_i, err_i = sql_of_invoke(o, d, as_batch)
+            sql_i, err_i = sql_of_invoke(o, d, as_batch, tm)
             res["sql_invoke"] = sql_i
             if r["error"] is not None:
                 res["kind"] = "render-error"
@@ -341,7 +399,7 @@ def oracle(case, dialects=DIALECTS, render_dialect=None):
                     if _same_error(r["exc"], err_i):
                         res["kind"] = "both-error-same"
                 continue
-            sql_e, ek, err_e = sql_of_exec(r["code"], d)
+            sql_e, ek, err_e = sql_of_exec(r["code"], d, tm, user_module_prefix=ump)
             res["sql_exec"] = sql_e
             if ek == "syntax":
                 res["kind"] = "syntax"
